@@ -323,3 +323,54 @@ func VerifCSSBackgroundLayers(n int) {
 	}
 	vReach("end")
 }
+
+var verifDataURLUnits = []string{"%28", "%29", "%27", "%22", "a", "%20", "b", "%5C"}
+
+func rcPctDecode(b []byte) []byte {
+	hv := func(c byte) int {
+		switch {
+		case c >= '0' && c <= '9':
+			return int(c - '0')
+		case c >= 'a' && c <= 'f':
+			return int(c-'a') + 10
+		case c >= 'A' && c <= 'F':
+			return int(c-'A') + 10
+		}
+		return -1
+	}
+	out := []byte{}
+	for i := 0; i < len(b); i++ {
+		if b[i] == '%' && i+2 < len(b)+0 && i+2 <= len(b)-1 && hv(b[i+1]) >= 0 && hv(b[i+2]) >= 0 {
+			out = append(out, byte(hv(b[i+1])*16+hv(b[i+2])))
+			i += 2
+		} else {
+			out = append(out, b[i])
+		}
+	}
+	return out
+}
+
+// VerifCSSDataURL (C11/C04): a{b:url(Q data:text/plain,U1..Un Q)} with the payload built from percent-encoded
+// parentheses / quotes / backslash / space and letters, unquoted or in either quote: the output is one well-formed
+// url() whose data URI decodes to the same payload (the data URI minifier re-encodes it; what it leaves bare must be
+// quoted or escaped for CSS again).
+func VerifCSSDataURL(n int) {
+	var pay []byte
+	for i := 0; i < n; i++ {
+		pay = append(pay, verifDataURLUnits[vChoice("u"+string(rune('0'+i)), len(verifDataURLUnits))]...)
+	}
+	q := []string{"", "\"", "'"}[vChoice("q", 3)]
+	val := []byte("url(" + q + "data:text/plain," + string(pay) + q + ")")
+	want := rcPctDecode(pay)
+	out := verifDecl("b", append([]byte(nil), val...), &Minifier{})
+	vAssert(len(out) >= 5 && string(out[:4]) == "url(" && out[len(out)-1] == ')', "still a url()")
+	u, ok := rcURLValue(out[4 : len(out)-1])
+	vAssert(ok, "the url() is well-formed (quoted, or free of bare quotes, parentheses and white space)")
+	k := 0
+	for k < len(u) && u[k] != ',' {
+		k++
+	}
+	vAssert(k < len(u) && len(u) >= 5 && string(u[:5]) == "data:", "still a data URI")
+	vAssert(rcEq(rcPctDecode(u[k+1:]), want), "same payload")
+	vReach("end")
+}
